@@ -781,6 +781,14 @@ def config(draw, min_m=1, max_m=7, need_t=False):
 
 
 @st.composite
+def cli_threshold(draw, m, t):
+    """None (threshold set by options only) or a different command-line threshold that the program overrides."""
+    if draw(st.integers(0, 3)):
+        return None
+    return draw(st.integers(0, (m - 1) // 2))
+
+
+@st.composite
 def schedule(draw, m, rich=True):
     """A schedule as data; empty/rr shrinks toward the canonical schedule."""
     ne = m + m * (m - 1)
@@ -805,7 +813,7 @@ def run_int_case(case, collect_shares=False, receivers=None, on_value=None, sim_
     ref_vals = reference(nodes, l)
     sim = simmod.Sim(case['m'], case['t'], prss=case['prss'], seed=case.get('seed', 0),
                      schedule=case.get('sched') or {'mode': 'fast'}, sec_param=sec_param,
-                     no_barrier=case.get('no_barrier', False))
+                     no_barrier=case.get('no_barrier', False), cli_threshold=case.get('cli_t'))
     try:
         if sim_hook is not None:
             sim_hook(sim)
